@@ -10,15 +10,14 @@ fn exec(compiled: &CompiledProgram, witness: WitnessValues) -> String {
         Err(e) => return format!("satisfy-err {}", e.replace('\n', " ")),
     };
     let env = simfony::dummy_env::dummy();
-    let pruned = match satisfied.redeem().prune(&env) {
-        Ok(x) => x,
-        Err(e) => return format!("exec-fail {}", e.to_string().replace('\n', " ")),
-    };
-    let mut mac = match simfony::simplicity::BitMachine::for_program(&pruned) {
+    // The program is executed exactly as `satisfy` returned it (unpruned). Pruning is a transformation of the
+    // simplicity-lang dependency, not of this crate (see DESIGN.md 11.3, "dependency observation D1").
+    let program = satisfied.redeem();
+    let mut mac = match simfony::simplicity::BitMachine::for_program(program) {
         Ok(m) => m,
         Err(e) => return format!("exec-fail limits {}", e.to_string().replace('\n', " ")),
     };
-    match mac.exec(&pruned, &env) {
+    match mac.exec(program, &env) {
         Ok(_) => "ok".to_string(),
         Err(e) => format!("exec-fail {}", e.to_string().replace('\n', " ")),
     }
@@ -81,15 +80,14 @@ fn run_program(src: &str, args_text: &str, wit_text: &str, debug: bool) -> Strin
         Err(e) => return format!("satisfy-err {}", e.replace('\n', " ")),
     };
     let env = simfony::dummy_env::dummy();
-    let pruned = match satisfied.redeem().prune(&env) {
-        Ok(x) => x,
-        Err(e) => return format!("exec-fail {}", e.to_string().replace('\n', " ")),
-    };
-    let mut mac = match simfony::simplicity::BitMachine::for_program(&pruned) {
+    // The program is executed exactly as `satisfy` returned it (unpruned). Pruning is a transformation of the
+    // simplicity-lang dependency, not of this crate (see DESIGN.md 11.3, "dependency observation D1").
+    let program = satisfied.redeem();
+    let mut mac = match simfony::simplicity::BitMachine::for_program(program) {
         Ok(m) => m,
         Err(e) => return format!("exec-fail limits {}", e.to_string().replace('\n', " ")),
     };
-    match mac.exec(&pruned, &env) {
+    match mac.exec(program, &env) {
         Ok(_) => "ok".to_string(),
         Err(e) => format!("exec-fail {}", e.to_string().replace('\n', " ")),
     }
